@@ -18,7 +18,9 @@ open SteelVerif.C01
 #print axioms SteelVerif.C01C.tail_call_stack_height
 #print axioms SteelVerif.C01C.tail_call_global_constant_frames
 #print axioms SteelVerif.C01C.dead_code_never_runs_core
-#print axioms SteelVerif.C01C.dead_code_never_runs_core'
+-- (the audit's line parser cannot read a theorem name that ends with a prime: print it through an alias)
+def SteelVerif.C01C.dead_code_never_runs_core_else := @SteelVerif.C01C.dead_code_never_runs_core'
+#print axioms SteelVerif.C01C.dead_code_never_runs_core_else
 #print axioms SteelVerif.C01C.call_of_nonprocedure_is_error
 #print axioms SteelVerif.C01C.call_error_reported
 #print axioms SteelVerif.C01C.compile_correct_program
@@ -27,3 +29,8 @@ open SteelVerif.C01
 #print axioms SteelVerif.C01C.vm_error_is_semantic_error
 #print axioms SteelVerif.C01C.two_closures_share_variable
 #print axioms SteelVerif.C01C.shared_variable_program
+#print axioms SteelVerif.C01BC.modelled_opcodes_exist
+#print axioms SteelVerif.C01BC.executed_opcodes_dispatched
+#print axioms SteelVerif.C01BC.word_opcodes_not_dispatched
+#print axioms SteelVerif.C01BC.word_opcodes_bad_in_model
+#print axioms SteelVerif.C01BC.reader_only_modelled
